@@ -628,6 +628,35 @@ func checkWazerotestMemoryWidths(c *core.Ctx) {
 	info := p.TypesInfo
 	width := map[string]int64{"PutUint16": 2, "PutUint32": 4, "PutUint64": 8, "Uint16": 2, "Uint32": 4, "Uint64": 8}
 	n := 0
+	// the range test, and the methods which pass their own (offset, length) on to it (to a fixed point)
+	checkers := map[string]bool{"isOutOfRange": true}
+	for changed := true; changed; {
+		changed = false
+		core.AllFuncDecls(p, func(fd *ast.FuncDecl) {
+			if core.RecvName(fd) != "Memory" || checkers[fd.Name.Name] || fd.Type.Params.NumFields() != 2 {
+				return
+			}
+			var params []types.Object
+			for _, f := range fd.Type.Params.List {
+				for _, nm := range f.Names {
+					params = append(params, info.Defs[nm])
+				}
+			}
+			ast.Inspect(fd.Body, func(x ast.Node) bool {
+				if call, ok := x.(*ast.CallExpr); ok && len(call.Args) == 2 && len(params) == 2 {
+					if se, ok := call.Fun.(*ast.SelectorExpr); ok && checkers[se.Sel.Name] {
+						a0, ok0 := call.Args[0].(*ast.Ident)
+						a1, ok1 := call.Args[1].(*ast.Ident)
+						if ok0 && ok1 && info.Uses[a0] == params[0] && info.Uses[a1] == params[1] {
+							checkers[fd.Name.Name] = true
+							changed = true
+						}
+					}
+				}
+				return true
+			})
+		})
+	}
 	core.AllFuncDecls(p, func(fd *ast.FuncDecl) {
 		if core.RecvName(fd) != "Memory" {
 			return
@@ -641,7 +670,7 @@ func checkWazerotestMemoryWidths(c *core.Ctx) {
 				return true
 			}
 			if se, ok := call.Fun.(*ast.SelectorExpr); ok {
-				if se.Sel.Name == "isOutOfRange" && len(call.Args) == 2 {
+				if checkers[se.Sel.Name] && len(call.Args) == 2 {
 					if v, ok := core.ConstVal(info, call.Args[1]); ok {
 						checked = v
 					}
@@ -979,29 +1008,34 @@ func checkFuncrefGlobalImportPinsExporter(c *core.Ctx) {
 			}
 			// only the linking arm: it stores into the importer's Globals
 			links := false
-			ast.Inspect(cc, func(y ast.Node) bool {
-				if as, ok := y.(*ast.AssignStmt); ok && len(as.Lhs) == 1 {
-					if ix, ok := as.Lhs[0].(*ast.IndexExpr); ok && strings.HasSuffix(core.ExprStr(ix.X), ".Globals") {
-						links = true
+			scope := armScope(p, cc)
+			for _, sn := range scope {
+				ast.Inspect(sn, func(y ast.Node) bool {
+					if as, ok := y.(*ast.AssignStmt); ok && len(as.Lhs) == 1 {
+						if ix, ok := as.Lhs[0].(*ast.IndexExpr); ok && strings.HasSuffix(core.ExprStr(ix.X), ".Globals") {
+							links = true
+						}
 					}
-				}
-				return true
-			})
+					return true
+				})
+			}
 			if !links {
 				return true
 			}
 			found = true
 			pins := false
-			ast.Inspect(cc, func(y ast.Node) bool {
-				call, ok := y.(*ast.CallExpr)
-				if !ok || !core.IsBuiltin(info, call, "append") || len(call.Args) < 2 {
+			for _, sn := range scope {
+				ast.Inspect(sn, func(y ast.Node) bool {
+					call, ok := y.(*ast.CallExpr)
+					if !ok || !core.IsBuiltin(info, call, "append") || len(call.Args) < 2 {
+						return true
+					}
+					if t := info.Types[call.Args[1]].Type; t != nil && strings.HasSuffix(t.String(), "wasm.ModuleInstance") {
+						pins = true
+					}
 					return true
-				}
-				if t := info.Types[call.Args[1]].Type; t != nil && strings.HasSuffix(t.String(), "wasm.ModuleInstance") {
-					pins = true
-				}
-				return true
-			})
+				})
+			}
 			c.Check(pins, "R09.9", "linking a global in "+fd.Name.Name+" records the exporting instance for reference-typed values", cc.Pos(),
 				"the arm appends the exporting instance to a keep-alive list of the importer",
 				"the global import arm only copies the *GlobalInstance: with the interpreter nothing then references the exporting instance from the importer, and a funcref value (a raw pointer into the exporter's function objects) dangles after the exporter is closed and collected – call_indirect calls a function of an unrelated later instance")
